@@ -29,7 +29,7 @@ MUST = ["aa55_answers_with_wrapping_checksum", "silent_request_after_failed_endp
         "connect_hang_bounded", "silent_exact", "success", "rejected"]
 EXHAUSTIVE = {"quick": True, "thorough": True}
 
-ALPHA = ["drop", "now", "intime", "late", "garbage", "short", "badsum", "baddup", "exc", "exc9", "frag2", "frag1", "dup",
+ALPHA = ["drop", "now", "intime", "late", "garbage", "short", "badsum", "baddup", "badnow", "exc", "exc9", "frag2", "frag1", "dup",
          "close", "closelate", "senderr", "reset", "unreachlate"]
 SYMS = {"reset": ("reset", 0.0), "unreachlate": None}     # resolved per T in expand()
 CONNECT = ["ok", "refused", "unreach", "hang"]
@@ -305,6 +305,10 @@ def run_shard(spec):
                     for script in (["now"], ["drop", "now"]):
                         run_case(scenario_then_silent("udp", spec["framing"], spec["ka"], spec["T"], R, script, connect=[outcome] * nfail), part)
                         part.count("silent_request_after_failed_endpoint")
+                # ... or the endpoint opens, the transmission is lost and the socket cannot be REopened for the retransmission
+                for pattern in (["ok", outcome], ["ok", "ok", outcome], ["ok", outcome, "ok"]):
+                    run_case(scenario_then_silent("udp", spec["framing"], spec["ka"], spec["T"], R, ["drop", "drop", "now"], connect=pattern), part)
+                    part.count("silent_request_after_failed_endpoint")
         for D in (0.0, 0.5, 1.0, 2.5):
             for hops in range(0, 8):        # arrival phase of the stale datagram relative to the caller's wake-up
                 run_case(scenario_idle_garbage(spec["transport"], spec["framing"], spec["ka"], spec["T"], R, D * spec["T"], hops), part)
